@@ -1,13 +1,13 @@
 #!/bin/bash
 # Confirm sub-agent mutants independently: patch applies to /repo HEAD, 70 stable tests pass with it,
 # demo fails with it and passes without.  Confirmed ones are copied to /verif/seeded/<id>-<variant>/.
-# usage: tools/confirm_mutants.sh C01 C02 ...
+# usage: tools/confirm_mutants.sh <dir>/<Cxx-v> ...     (each directory holds patch.diff, demo.py, meta.json)
 set -u
 WT=/tmp/mw_confirm
 git -C /repo worktree remove --force $WT 2>/dev/null
 git -C /repo worktree add -q --detach $WT HEAD || exit 2
-for id in "$@"; do for v in a b; do
-  src=/tmp/mut/out/$id/$v
+for src in "$@"; do
+  name=$(basename $src); id=${name%-*}; v=${name#*-}
   [ -f $src/patch.diff ] || { echo "$id-$v: no patch"; continue; }
   git -C $WT checkout -q -- . ; git -C $WT clean -fdq
   if ! git -C $WT apply $src/patch.diff 2>/dev/null; then echo "$id-$v: PATCH DOES NOT APPLY to HEAD"; continue; fi
@@ -31,5 +31,5 @@ out = {'property': pid, 'variant': v, 'summary': m.get('summary'), 'needs_to_man
 json.dump(out, open(dst, 'w'), indent=1)
 PY
   fi
-done; done
+done
 git -C /repo worktree remove --force $WT
